@@ -1143,6 +1143,21 @@ func (t *State) procTodoBlkForWalk(todoBlocks []*pb.InternalBlock) (err error) {
 		// 将batch赋值到合约机的上下文
 		batch := t.ldb.NewBatch()
 
+		// 检查块内的utxo双花情况: the outputs spent by earlier transactions of the block are only
+		// deleted in the batch, which is not written yet, so the per-transaction check below still
+		// finds them in the table (PlayAndRepost makes the same check in processUnconfirmTxs)
+		utxoKeysInBlock := map[string]bool{}
+		for _, btx := range todoBlk.Transactions {
+			for _, txInput := range btx.TxInputs {
+				utxoKey := utxo.GenUtxoKey(txInput.FromAddr, txInput.RefTxid, txInput.RefOffset)
+				if utxoKeysInBlock[utxoKey] {
+					t.log.Warn("found duplicated utxo in same block", "utxoKey", utxoKey, "txid", utils.F(btx.Txid))
+					return ErrUTXODuplicated
+				}
+				utxoKeysInBlock[utxoKey] = true
+			}
+		}
+
 		// 执行区块里面的交易
 		idx, length := 0, len(todoBlk.Transactions)
 		for idx < length {
